@@ -458,6 +458,8 @@ type File struct {
 	off      int64
 	closed   bool
 	writable bool
+	app      bool // O_APPEND: every write goes to the end
+	seekSet  bool // WriteAt in progress: keep the explicit offset
 }
 
 // ErrInvalid is what *os.File methods return on a nil receiver.
@@ -526,6 +528,9 @@ func (f *File) Write(b []byte) (int, error) {
 }
 
 func (f *File) put(b []byte) {
+	if f.app && !f.seekSet {
+		f.off = int64(len(f.n.data))
+	}
 	end := f.off + int64(len(b))
 	for int64(len(f.n.data)) < end {
 		f.n.data = append(f.n.data, 0)
@@ -611,8 +616,8 @@ func Put(name string, data []byte, mtime time.Time) {
 	S.nodes[p] = &node{data: append([]byte{}, data...), mtime: mtime}
 }
 
-// Mkdir creates a directory (and parents) without counting as a store mutation.
-func Mkdir(name string, mtime time.Time) {
+// PutDir creates a directory (and parents) without counting as a store mutation.
+func PutDir(name string, mtime time.Time) {
 	p := abs(name)
 	for d := p; d != "/"; d = filepath.Dir(d) {
 		if _, ok := S.nodes[d]; !ok {
